@@ -314,6 +314,11 @@ def standard_run(prop, cases, ctx):
         for c, o, (a, b) in zip(cases, obs, spans):
             bad = [x for x in ans[a:b] if x != 'true']
             if bad:
+                if hasattr(prop, 'minimize'):
+                    try:
+                        c = prop.minimize(c, o, ans[a:b])
+                    except Exception:
+                        pass
                 violations.append({'case': c, 'summary': prop.describe(c, o), 'signature': prop.signature(c, o),
                                    'what': prop.what(c, o) if hasattr(prop, 'what') else prop.signature(c, o),
                                    'observed': bad[:3]})
